@@ -86,6 +86,74 @@ def evaluate(ctx, tg, cases, impl, model):
     return dis
 
 
+OPNAME = {"W": "wakePotential()", "P": "padBunchProfiles()", "C": "updateCSR()", "G": "getter"}
+
+
+def shrink2(tg, c, k, bad):
+    """drop earlier operations while operation k (moving) still shows the defect `bad(result)`"""
+    ops = c.ops[:k + 1]
+    changed = True
+    while changed and len(ops) > 1:
+        changed = False
+        for j in range(len(ops) - 1):
+            t = ops[:j] + ops[j + 1:]
+            r = hc.run_impl2(tg, [c.with_ops(t, "s")])["s"]
+            if bad(r[-1]):
+                ops, changed = t, True
+                break
+    return c.with_ops(ops)
+
+
+def evaluate2(ctx, tg, cases, impl, model):
+    """two field objects in one process + getters: oracles on the implementation, then correspondence"""
+    dis = []
+    for c in cases:
+        i, m = impl[c.cid], model[c.cid]
+        d = hc.compare2(c, i, m)
+        if d:
+            dis.append(dict(case=c.replay(), detail=[dict(what=w, **x) for w, x in d[:3]],
+                            sig=dict(kind="hist2", stage="correspondence", what=d[0][0])))
+        reported = False
+        for k, r in enumerate(i):
+            if reported:
+                break
+            what = None
+            if not r["same"]:
+                what, bad = "same", (lambda q: not q["same"])
+            elif r.get("other") is False:
+                what, bad = "other", (lambda q: q.get("other") is False)
+            elif r["kind"] == "G" and r.get("self") is False:
+                what, bad = "self", (lambda q: q.get("self") is False)
+            if what is None:
+                continue
+            reported = True
+            s = shrink2(tg, c, k, bad)
+            rs = hc.run_impl2(tg, [s])[s.cid][-1]
+            last = s.ops[-1]
+            hist = " ".join("%d:%s" % (o[0], o[1]) for o in s.ops[:-1]) or "<empty>"
+            if what == "same":
+                msg = ("%s on object %d after the interleaved history [%s] on two field objects differs from a freshly constructed object (%s[%s])"
+                       % (OPNAME[last[1]] if last[1] != "G" else hc.GETTERS[last[2]] + "()", last[0], hist,
+                          rs.get("diff", {}).get("buffer"), rs.get("diff", {}).get("index")))
+                clause = "history-independence"
+            elif what == "other":
+                msg = "%s on object %d changed a buffer of the OTHER field object (history [%s])" % (OPNAME[last[1]], last[0], hist)
+                clause = "other-object"
+            else:
+                msg = "the getter %s() changed a buffer of its object (history [%s])" % (hc.GETTERS[last[2]], hist)
+                clause = "getter-pure"
+            ctx.violation("impl-oracle", msg, case=s.replay(), observed=rs.get("diff") or dict(other_untouched=rs.get("other"), self_unchanged=rs.get("self")),
+                          expected="bit-identical to the fresh object; other object untouched; getters change nothing",
+                          sig=dict(kind="hist2", clause=clause, op=last[1], same_length=c.objs[0]["N"] == c.objs[1]["N"],
+                                   buffer=(rs.get("diff") or {}).get("buffer")))
+        objs_used = set(o[0] for o in c.ops)
+        calls = [o for o in c.ops if o[1] != "G"]
+        distinct = len(set(tuple(o[3]) for o in calls)) > 1
+        ctx.case_done(c.cid, len(objs_used) == 2 and len(calls) >= 2 and distinct)
+        ctx.evaluations += len(c.ops) - 1
+    return dis
+
+
 def main_uses_separate_objects():
     """note only: does src/main.cpp ask one field object for both kinds of result?"""
     try:
@@ -106,11 +174,15 @@ def corpus():
             hc.HistCase("w_twice", 2, 1, 8, 3, [1], z, [("W", 0.0, p), ("W", 0.0, p)], "Coq witness E_clob (hypothesis B)")]
 
 
-def run_cases(ctx, cases, coq):
+def run_cases(ctx, cases, coq, cases2=()):
     tg = ctx.build(harness=("impl_hist",))
-    impl = hc.run_impl(tg, cases)
-    model = hc.run_model(cases, fixed=True)
+    impl = hc.run_impl(tg, cases) if cases else {}
+    model = hc.run_model(cases, fixed=True) if cases else {}
     dis = evaluate(ctx, tg, cases, impl, model)
+    if cases2:
+        impl2 = hc.run_impl2(tg, cases2)
+        model2 = hc.run_model2(cases2)
+        dis += evaluate2(ctx, tg, cases2, impl2, model2)
     if dis:
         # diagnostic only: does the tree behave like the pinned version of the model (no clearing)?
         pinned = hc.run_model(cases, fixed=False)
@@ -127,26 +199,41 @@ def run(ctx, only=None):
                 "composite / prime, nx 2..10); every call compared bit for bit with the same call on a freshly constructed object (same process, same FFTW "
                 "wisdom), padded buffer compared exactly with the model, written cells of all seven buffers (probe object, two poison patterns) compared with "
                 "the model's proved footprints, _wakelosses[N/2..] and _formfactor[N/2+1..] monitored for zero. Every tenth case ends CSR;Wake with a non-zero "
-                "first offset, every tenth Pad|Wake;CSR with nb>1. Non-trivial: >=2 calls, distinct profiles, both CSR and wake/pad calls, first offset != 0 or nb>1.")
+                "first offset, every tenth Pad|Wake;CSR with nb>1. Half of the impedances have EXACT zeros (zero from an index on = short impedance file, sparse zeros, "
+                "zero real or imaginary parts, Z(0)=0), those cases mostly as wake histories with a new profile per call. Second wave: 120 (thorough 800) "
+                "interleaved histories on TWO field objects in one process on the same PhaseSpace (same or different transform length; object 1 in half of "
+                "the cases with spacing 0 and built without the wake transform, as main() builds its radiation field), with getter calls "
+                "(getWakePotentials, getPaddedWakePotential, getPaddedBunchProfiles, getCSRSpectrum, getCSRPower) in between: every call compared with a fresh "
+                "object, every operation must leave all buffers of the other object bit-identical, a getter must return the buffer the model names and change nothing. "
+                "Every fifth single-object case (N <= 64) is also run through the programs generated from the current source (Gen_EField.v): all seven buffers "
+                "must equal the hand model's. Non-trivial: >=2 calls, distinct profiles, both CSR and wake/pad calls, first offset != 0 or nb>1; "
+                "two objects: calls on both, >= 2 distinct profiles.")
     coq = vp_coq.full_check("C18", ctx, fams=("hist",))
+    cases2 = []
     if only is not None:
-        cases = only
+        cases = [c for c in only if isinstance(c, hc.HistCase)]
+        cases2 = [c for c in only if isinstance(c, hc.Hist2Case)]
     elif ctx.quick():
+        cases2 = hc.gen_cases2(ctx, 120, hc.POW2 + hc.COMPOSITE + hc.PRIME, 14)
         # fixed pool of transform lengths + a few lengths in 6..160 that change with the seed (monitor of (B))
         extra = sorted(ctx.rng.sample(range(6, 161), 6))
         cases = corpus() + hc.gen_cases(ctx, 500, hc.POW2 + hc.COMPOSITE + hc.PRIME, 12)
         for N in extra:
             cases += hc.gen_cases(ctx, 3, [N], 6, prefix="x%d_" % N)
     else:
+        cases2 = hc.gen_cases2(ctx, 800, hc.POW2 + hc.COMPOSITE + hc.PRIME + hc.POW2_T + hc.COMPOSITE_T + hc.PRIME_T, 20)
         cases = corpus() + hc.gen_cases(ctx, 2500, hc.POW2 + hc.COMPOSITE + hc.PRIME, 12) + \
             hc.gen_cases(ctx, 300, hc.POW2_T + hc.COMPOSITE_T + hc.PRIME_T, 24, prefix="t")
         for N in range(6, 201):          # every transform length 6..200: monitor of (B), clobbering
             cases += hc.gen_cases(ctx, 2, [N], 5, prefix="x%d_" % N)
     ctx.extra["transform_lengths"] = sorted(set(c.N for c in cases))
-    dis = run_cases(ctx, cases, coq)
-    ctx.sample(cases[0].describe())
+    dis = run_cases(ctx, cases, coq, cases2)
+    if cases:
+        ctx.sample(cases[0].describe())
     if len(cases) > 3:
         ctx.sample(cases[3].describe())
+    if cases2:
+        ctx.sample(cases2[0].describe())
     ctx.extra["correspondence_disagreements"] = len(dis)
     ctx.extra["main_cpp_field_objects"] = main_uses_separate_objects()
     ctx.assumptions += [
@@ -165,6 +252,8 @@ def run(ctx, only=None):
 
 def replay(ctx, rp):
     case = rp.get("case")
+    if case and case.get("kind") == "hist2":
+        return run(ctx, only=[hc.Hist2Case.from_replay(case)])
     if not case or case.get("kind") != "hist":
         return run(ctx)
     run(ctx, only=[hc.HistCase.from_replay(case)])
